@@ -27,7 +27,9 @@ RULE = (
     'returned offsets up to a common shift to 1e-9 of the value scale.  '
     'Table level: for every event-word dataset, the residual sums formed '
     'from rising_/recession_interval(_zeta) and the master-curve views are '
-    'zero for every interval.  Non-trivial = three or more series (more '
+    'zero for every interval; the same holds as a state invariant after '
+    'every sequence of up to 4 (5) workflow steps from one loaded dataset.  '
+    'Non-trivial = three or more series (more '
     'than one unknown) or a dataset with both curves.')
 ASSUMPTIONS = [
     'linearity argument: for a fixed presence pattern find_offsets solves a '
@@ -134,6 +136,8 @@ def spaces(tier):
         out.append(pattern_space(n, m))
     for config in CONFIGS:
         out.append(event_space(2, config))
+    from mc.checks import c13
+    out.append(c13.sequence_space(4 if tier == 'quick' else 5))
     if tier == 'thorough':
         for config in CONFIGS:
             out.append(event_space(3, config))
@@ -264,11 +268,20 @@ def run_tables(case):
         return Result(nontrivial=False, outcome='no-classification',
                       counters={'workflow_failed_before_curves:'
                                 + cs.exc_site(exc): 1})
-    viol = []
     try:
         t = events.curve_tables(connection)
     finally:
         connection.close()
+    viol, done = residual_violations(t)
+    return Result(viol=viol, nontrivial=done == 2,
+                  outcome=repr((len(t['rising_interval']),
+                                len(t['recession_interval']))),
+                  obs={'rise_intervals': len(t['rising_interval']),
+                       'recession_intervals': len(t['recession_interval'])})
+
+
+def residual_violations(t):
+    viol = []
     done = 0
     for name, ivl, zeta, avg in (
             ('rise', 'rising_interval', 'rising_interval_zeta',
@@ -308,14 +321,32 @@ def run_tables(case):
                 break
     seen = set()
     viol = [v for v in viol if not (v[0] in seen or seen.add(v[0]))]
-    return Result(viol=viol, nontrivial=done == 2,
-                  outcome=repr((len(t['rising_interval']),
-                                len(t['recession_interval']))),
-                  obs={'rise_intervals': len(t['rising_interval']),
-                       'recession_intervals': len(t['recession_interval'])})
+    return viol, done
+
+
+def run_sequence(case):
+    import sqlite3
+    from mc.checks import c13
+    blob = c13.state_after(case['steps'])
+    connection = sqlite3.connect(':memory:')
+    connection.deserialize(blob)
+    try:
+        t = events.curve_tables(connection)
+    finally:
+        connection.close()
+    viol, done = residual_violations(t)
+    viol = [(sig, 'after the steps %r: %s' % (case['steps'], msg))
+            for sig, msg in viol]
+    return Result(viol=viol, nontrivial=done > 0, outcome=str(done),
+                  states=len(case['steps']) + 1,
+                  transitions=len(case['steps']),
+                  counters={'sequences_ending_in_a_state_with_curves':
+                            int(done > 0)})
 
 
 def run_case(case):
     if case['kind'] == 'pattern':
         return run_pattern(case)
+    if case['kind'] == 'sequence':
+        return run_sequence(case)
     return run_tables(case)
